@@ -51,6 +51,11 @@ func recordH2(r *hk.Run, o h2obs) {
 }
 
 func emitH2(o h2obs) string {
+	if o.Kind == "client-timeout" && o.PeerFailed && strings.Contains(o.CallErr, "received from peer") {
+		// net/http appends "(Client.Timeout exceeded ...)" to WHATEVER error the transport returns once its
+		// timer has fired: underneath it is the peer's reset
+		o.Call = "other"
+	}
 	if o.Kind == "client-timeout" {
 		if o.Call == "cause:deadline" {
 			o.Call = "cause:timeout"
